@@ -3,7 +3,9 @@
  * Model ties (h4model engine `tools`):
  *   T tools adiff <type> <tl8> <pr8> <maxerr> <vals1> <vals2>  => <n_diff> <lines printed>
  *        the REAL array_diff of hdiff_array.c (compiled into this engine), stdout captured;
- *        integer types: stored values; floating-point types: values and limits in eighths.
+ *        integer types: stored values; floating-point types: values and limits in eighths, or nan (the engine stores a random
+ *        NaN bit pattern: quiet / signalling, either sign, any payload) / inf / -inf / -0 (the float -0.0).
+ *        array_diff is compiled from the tree under check (-I<REPO>), not from a fixed path.
  *   T tools hdiff <type> <tl8> <pr8> <maxerr> <vals1> <vals2>  => <exit status> <lines printed>
  *        the real hdiff BINARY on two files holding one dataset "d" each.
  *   T tools match <names1> <names2>                            => <name>/<in1><in2> ...
@@ -12,11 +14,18 @@
  *   T tools import_shape <nplanes> <nrows> <ncols>             => shape of the SDS hdfimport creates | fail
  *   T tools import_run <to_float> <fmt>/<opt>/<np>/<nr>/<nc>,...  => fail | ok <type>:<shape> ...
  *        ONE hdfimport run with 1-4 input files of mixed formats / options (section G)
- * Implementation oracles (no model): hdiff F F = 0; single-point mutations F' (one element of one SDS / Vdata / image,
- * one SDS / dimension / image / vdata / vdata-field / vgroup / SD-file / GR-file attribute value, one added object)
- * => hdiff F F' and hdiff F' F exit 1; the numbers printed by
+ * Implementation oracles (no model).  The generated files hold, among ordinary float32 / float64 values (SDS data, dimension scales,
+ * fill values, attributes, vdata fields, images): NaN of several bit patterns, +-Inf, -0.0, denormals, +-FLT_MAX / DBL_MAX.
+ * hdiff F F = 0, also under a random -t / -p (hdiff-not-reflexive); hdiff F G = hdiff G F = 0 for a second file written from the
+ * same description (hdiff-equal-content-differs); single-point mutations F' (one element of one SDS / dimension scale / Vdata /
+ * image, one SDS / dimension / image / vdata / vdata-field / vgroup / SD-file / GR-file attribute value, one added object)
+ * => hdiff F F' and hdiff F' F exit 1 (hdiff-misses:<kind>); a floating-point element becomes another number, a NaN, +-Inf, +-0.0,
+ * a denormal, +-MAX, or changes only its sign / payload: see the comment in oracle_mutations for what is demanded of each class
+ * (hdiff-nan-difference-not-greater-than-limit, hdiff-asymmetric); the numbers printed by
  * hdp dumpsds / dumpvd / dumpgr -d equal what SDreaddata / VSread / GRreadimage return (one object per invocation, and several
- * datasets named in one -n list); hdiff -v <list> compares exactly the listed datasets; hdfimport output values equal
+ * datasets named in one -n list; a NaN must be printed as a NaN, an infinity as that infinity); hdiff -v <list> compares exactly
+ * the listed datasets; hdfimport floating-point inputs with NaN / +-Inf / -0.0 / +-FLT_MAX / FLT_MIN / a denormal give exactly
+ * these values; hdfimport output values equal
  * the numeric input (text and binary, ranks 2 and 3); in a run with several input files every SDS equals ITS input file
  * (shape, type, values, range, dimension scales) and the images equal those of the same files imported one by one.
  */
@@ -25,11 +34,16 @@
 #include <fcntl.h>
 #include <libgen.h>
 #include <math.h>
+#include <limits.h>
+#include <float.h>
 
 #define main hdiff_array_unused_main
-#include "/repo/mfhdf/hdiff/hdiff_array.c"
+#include "mfhdf/hdiff/hdiff_array.c" /* resolved through -I<REPO>: the array_diff of the tree under check, not always /repo's */
 #undef main
 
+#ifndef REPO
+#define REPO "/repo"
+#endif
 static char bindir[700];
 static int  verbose;
 static const char *run_cwd; /* when set: the tool runs with this working directory (hdfimport keeps its file names in char[32]) */
@@ -69,7 +83,7 @@ static void crash_oracle(int rc, const char *log, const char *tool, const char *
             char *p;
             if (!kind[0] && (p = strstr(line, "ERROR: AddressSanitizer: "))) sscanf(p + 25, "%60s", kind);
             if (!kind[0] && (p = strstr(line, "runtime error: "))) snprintf(kind, sizeof kind, "ubsan");
-            if (kind[0] && !fn[0] && strstr(line, "/repo/") && (p = strstr(line, " in "))) sscanf(p + 4, "%60s", fn);
+            if (kind[0] && !fn[0] && (strstr(line, "/repo/") || strstr(line, REPO "/")) && (p = strstr(line, " in "))) sscanf(p + 4, "%60s", fn);
         }
         fclose(f);
     }
@@ -86,10 +100,29 @@ static const ty_t TYS[] = {
     {"i32", DFNT_INT32, 32, 1, 0}, {"u32", DFNT_UINT32, 32, 0, 0}, {"f32", DFNT_FLOAT32, 32, 1, 1}, {"f64", DFNT_FLOAT64, 64, 1, 1}};
 #define NTYS 8
 
+/* the IEEE special values of the floating-point types, as the T line names them: nan (ANY NaN bit pattern - the engine stores a
+   random one: quiet / signalling, either sign, any payload), inf, -inf, -0 (the float -0.0) */
+#define SP_NAN   (LONG_MAX - 1)
+#define SP_PINF  (LONG_MAX - 2)
+#define SP_NINF  (LONG_MAX - 3)
+#define SP_NZERO (LONG_MAX - 4)
+#define IS_SP(v) ((v) >= SP_NZERO)
+static long rnd_special(void)
+{
+    switch ((int)hk_range(0, 6)) {
+        case 0: case 1: case 2: return SP_NAN;
+        case 3: return SP_PINF;
+        case 4: return SP_NINF;
+        case 5: return SP_NZERO;
+        default: return hk_chance(50) ? SP_PINF : SP_NAN;
+    }
+}
+
 /* a random value of the type, as the integer the T line carries (floats: eighths) */
 static long rnd_val(const ty_t *t, int rel)
 {
     long lo, hi;
+    if (t->flt && hk_chance(18)) return rnd_special();
     if (t->flt) { lo = -(1L << 14); hi = 1L << 14; }
     else if (t->bits == 8) { lo = t->sgn ? -128 : 0; hi = t->sgn ? 127 : 255; }
     else if (t->bits == 16) { lo = t->sgn ? -32768 : 0; hi = t->sgn ? 32767 : 65535; }
@@ -111,6 +144,8 @@ static long near_val(const ty_t *t, long a, int rel)
     else if (t->bits == 16) { lo = t->sgn ? -32768 : 0; hi = t->sgn ? 32767 : 65535; }
     else { lo = t->sgn ? -(1L << 31) : 0; hi = t->sgn ? (1L << 31) - 1 : (1L << 32) - 1; }
     if (rel && t->bits > 16) { lo = t->sgn ? -(1L << 14) : 0; hi = 1L << 14; }
+    if (t->flt && IS_SP(a)) return hk_chance(55) ? a : hk_chance(50) ? rnd_special() : rnd_val(t, rel); /* NaN vs NaN: two bit patterns, as a rule */
+    if (t->flt && hk_chance(8)) return rnd_special();
     switch ((int)hk_range(0, 6)) {
         case 0: case 1: return a;
         case 2: v = a + hk_range(-3, 3); break;
@@ -121,8 +156,26 @@ static long near_val(const ty_t *t, long a, int rel)
     }
     return v < lo ? lo : v > hi ? hi : v;
 }
+static void put_special(const ty_t *t, void *buf, int i, long v)
+{
+    uint32_t u4; uint64_t u8;
+    if (v == SP_NAN) {
+        /* exponent all ones, mantissa not 0: quiet or signalling, any payload, either sign */
+        uint32_t man = (uint32_t)hk_range(1, 0x7fffff);
+        if (hk_chance(40)) man |= 0x400000;
+        if (hk_chance(25)) man = hk_chance(50) ? 0x400000 : 1;
+        u4 = 0x7f800000u | man | (hk_chance(30) ? 0x80000000u : 0);
+        u8 = 0x7ff0000000000000ull | ((uint64_t)man << 29) | (hk_chance(50) ? (uint64_t)hk_range(0, 0x1fffffff) : 0) | (hk_chance(30) ? 0x8000000000000000ull : 0);
+    }
+    else if (v == SP_PINF) { u4 = 0x7f800000u; u8 = 0x7ff0000000000000ull; }
+    else if (v == SP_NINF) { u4 = 0xff800000u; u8 = 0xfff0000000000000ull; }
+    else { u4 = 0x80000000u; u8 = 0x8000000000000000ull; }
+    if (t->nt == DFNT_FLOAT32) memcpy((float32 *)buf + i, &u4, 4); else memcpy((float64 *)buf + i, &u8, 8);
+}
+
 static void put_val(const ty_t *t, void *buf, int i, long v)
 {
+    if (t->flt && IS_SP(v)) { put_special(t, buf, i, v); return; }
     switch (t->nt) {
         case DFNT_INT8: ((int8 *)buf)[i] = (int8)v; break;
         case DFNT_UINT8: ((uint8 *)buf)[i] = (uint8)v; break;
@@ -151,7 +204,11 @@ static void print_vals(const long *v, int n)
 {
     int i;
     if (n == 0) { printf("-"); return; }
-    for (i = 0; i < n; i++) printf("%s%ld", i ? "," : "", v[i]);
+    for (i = 0; i < n; i++) {
+        if (i) printf(",");
+        if (v[i] == SP_NAN) printf("nan"); else if (v[i] == SP_PINF) printf("inf"); else if (v[i] == SP_NINF) printf("-inf");
+        else if (v[i] == SP_NZERO) printf("-0"); else printf("%ld", v[i]);
+    }
 }
 
 static int count_pos_lines(const char *path)
@@ -300,34 +357,107 @@ static int copy_file(const char *a, const char *b)
 
 static char mut_sds[TG_NAME + 8]; /* name of the SDS the last "sds-element" mutation changed */
 
+/* relation between the old and the new value of a changed element */
+enum { MC_DIFFERENT, /* two different values (numbers or infinities), or bits compared as bits: must be reported */
+       MC_NAN,       /* a NaN on exactly one side: must be reported (array_diff as it is does not: known finding) */
+       MC_SAMEVALUE  /* other bits, same value: 0.0 <-> -0.0, a NaN <-> a NaN of another payload / sign: see oracle_mutations */ };
+static int  mut_class;
+static char mut_how[96];
+
+static int flt_is_special(int32 nt, const void *p)
+{
+    if (nt == DFNT_FLOAT32) { float32 x; memcpy(&x, p, 4); return !isfinite(x) || x == 0 || fabsf(x) < FLT_MIN || fabsf(x) == FLT_MAX; }
+    else { float64 x; memcpy(&x, p, 8); return !isfinite(x) || x == 0 || fabs(x) < DBL_MIN || fabs(x) == DBL_MAX; }
+}
+
+/* index of the element to change: more often than not one that holds a special value, when there is one */
+static long pick_index(int32 nt, const void *buf, long n, int stride)
+{
+    long cand[64], k; int nc = 0, esz = tg_ntsize(nt);
+    if ((nt == DFNT_FLOAT32 || nt == DFNT_FLOAT64) && hk_chance(60))
+        for (k = 0; k < n && nc < 64; k += stride)
+            if (flt_is_special(nt, (const uint8 *)buf + k * esz)) cand[nc++] = k;
+    if (nc) return cand[hk_range(0, nc - 1)];
+    return hk_range(0, n / stride - 1) * stride;
+}
+
+/* give the float32 / float64 element at v another bit pattern; sets mut_class / mut_how */
+static void mut_float(void *v, int32 nt)
+{
+    int    f32 = nt == DFNT_FLOAT32, kind = (int)hk_range(0, 13);
+    double o, n;
+    uint64_t ob = 0, nb = 0;
+    float32 o4, n4; float64 n8;
+    if (f32) { memcpy(&o4, v, 4); memcpy(&ob, v, 4); o = o4; } else { memcpy(&o, v, 8); memcpy(&ob, v, 8); }
+    switch (kind) {
+        default: /* another number */
+            if (!isfinite(o)) n = hk_chance(50) ? 1.0 : 0.0;
+            else { n = f32 ? (double)(float32)((float32)o + 1.0f) : o + 1.0; if (n == o) n = o / 2; }
+            break;
+        case 4: case 5: n = NAN; break;                        /* the bit pattern follows below */
+        case 6: n = INFINITY; break;
+        case 7: n = -INFINITY; break;
+        case 8: case 9: n = -o; break;                         /* the sign bit: 0.0 <-> -0.0, NaN <-> -NaN, Inf <-> -Inf, x <-> -x */
+        case 10: n = hk_chance(50) ? 0.0 : -0.0; break;
+        case 11: n = f32 ? (double)(FLT_MIN / 4) : DBL_MIN / 4; break;
+        case 12: n = f32 ? (double)FLT_MAX : DBL_MAX; if (hk_chance(50)) n = -n; break;
+        case 13: n = isnan(o) ? NAN : o; break;                /* a NaN stays a NaN (other payload); a number: its last mantissa bit */
+    }
+    if (f32) { n4 = (float32)n; memcpy(&nb, &n4, 4); } else { n8 = n; memcpy(&nb, &n8, 8); }
+    if (kind == 8 || kind == 9) nb = ob ^ (f32 ? 0x80000000ull : 0x8000000000000000ull);
+    if (kind == 13 && !isnan(o)) nb = ob ^ 1;
+    if (isnan(n) && kind != 8 && kind != 9) {
+        static const uint64_t M32[] = {0x7fc00000u, 0xffc00000u, 0x7f800001u, 0x7fc12345u, 0xffa00001u, 0x7fffffffu};
+        static const uint64_t M64[] = {0x7ff8000000000000ull, 0xfff8000000000000ull, 0x7ff0000000000001ull, 0x7ff8000000012345ull, 0xfff4000000000001ull, 0x7fffffffffffffffull};
+        int w = (int)hk_range(0, 5);
+        nb = f32 ? M32[w] : M64[w];
+        if (nb == ob) nb = f32 ? M32[(w + 1) % 6] : M64[(w + 1) % 6];
+    }
+    if (nb == ob) { float32 a = o == 1.0 ? 2.0f : 1.0f; float64 b = a; if (f32) memcpy(&nb, &a, 4); else memcpy(&nb, &b, 8); }
+    memcpy(v, &nb, f32 ? 4 : 8);
+    if (f32) { memcpy(&n4, v, 4); n = n4; } else memcpy(&n, v, 8);
+    mut_class = (isnan(o) && isnan(n)) ? MC_SAMEVALUE : (isnan(o) || isnan(n)) ? MC_NAN : (o == n) ? MC_SAMEVALUE : MC_DIFFERENT;
+    snprintf(mut_how, sizeof mut_how, "%.9g (bits %0*llx) -> %.9g (bits %0*llx)", o, f32 ? 8 : 16, (unsigned long long)ob, n, f32 ? 8 : 16, (unsigned long long)nb);
+}
+
 /* flip one value: returns a description, or NULL when this spec has no such object */
 static const char *mutate(const char *path, tg_spec_t *s, int kind, char *desc, size_t cap)
 {
     int i;
+    mut_class = MC_DIFFERENT; mut_how[0] = 0;
     switch (kind) {
         case 0: { /* one element of one non-empty numeric SDS */
             int cand[TG_MAXSDS], nc = 0;
             for (i = 0; i < s->nsds; i++) if (!s->sds[i].empty && tg_nelem(s->sds[i].rank, s->sds[i].dims) > 0 && s->sds[i].lay.comp == 0 && !s->sds[i].lay.chunked) cand[nc++] = i;
             if (!nc) return NULL;
+            if (hk_chance(60)) { /* a floating-point dataset, when there is one */
+                int fc[TG_MAXSDS], nf = 0;
+                for (i = 0; i < nc; i++) if (s->sds[cand[i]].nt == DFNT_FLOAT32 || s->sds[cand[i]].nt == DFNT_FLOAT64) fc[nf++] = cand[i];
+                if (nf) { memcpy(cand, fc, sizeof(int) * (size_t)nf); nc = nf; }
+            }
             {
                 tg_sds_t *d = &s->sds[cand[hk_range(0, nc - 1)]];
-                int32 sd = SDstart(path, DFACC_WRITE), id, st[TG_MAXRANK], ed[TG_MAXRANK];
+                int32 sd = SDstart(path, DFACC_WRITE), id, st[TG_MAXRANK], ed[TG_MAXRANK], z[TG_MAXRANK] = {0};
                 uint8 v[8] __attribute__((aligned(8)));
+                long  nel = tg_nelem(d->rank, d->dims), at;
+                void *all = calloc((size_t)nel + 1, 8);
                 int   j;
                 id = SDselect(sd, SDnametoindex(sd, d->name));
-                for (j = 0; j < d->rank; j++) { st[j] = (int32)hk_range(0, d->dims[j] - 1); ed[j] = 1; }
+                SDreaddata(id, z, NULL, d->dims, all);
+                at = pick_index(d->nt, all, nel, 1);
+                free(all);
+                for (j = d->rank - 1; j >= 0; j--) { st[j] = (int32)(at % d->dims[j]); at /= d->dims[j]; ed[j] = 1; }
                 SDreaddata(id, st, NULL, ed, v);
-                /* a change hdiff's own arithmetic can see: +1 (or -1 at the top of the range) on the low byte / value */
+                /* a change hdiff's own arithmetic can see: another value (floating-point types: see mut_float), +-1 on the low bit */
                 switch (d->nt) {
-                    case DFNT_FLOAT32: *(float32 *)v += 1.0f; break;
-                    case DFNT_FLOAT64: *(float64 *)v += 1.0; break;
+                    case DFNT_FLOAT32: case DFNT_FLOAT64: mut_float(v, d->nt); break;
                     case DFNT_INT16: case DFNT_UINT16: *(uint16 *)v ^= 1; break;
                     case DFNT_INT32: case DFNT_UINT32: *(uint32 *)v ^= 1; break;
                     default: v[0] ^= 1; break;
                 }
                 SDwritedata(id, st, NULL, ed, v);
                 SDendaccess(id); SDend(sd);
-                snprintf(desc, cap, "one element of SDS %s (type %d)", d->name, (int)d->nt);
+                snprintf(desc, cap, "one element of SDS %s (type %d) %s", d->name, (int)d->nt, mut_how);
                 snprintf(mut_sds, sizeof mut_sds, "%s", d->name);
                 return "sds-element";
             }
@@ -379,21 +509,36 @@ static const char *mutate(const char *path, tg_spec_t *s, int kind, char *desc, 
             int cand[TG_MAXGR], nc = 0;
             for (i = 0; i < s->ngr; i++) if (s->gr[i].lay.comp == 0 && !s->gr[i].lay.chunked) cand[nc++] = i;
             if (!nc) return NULL;
+            if (hk_chance(60)) {
+                int fc[TG_MAXGR], nf = 0;
+                for (i = 0; i < nc; i++) if (s->gr[cand[i]].nt == DFNT_FLOAT32 || s->gr[cand[i]].nt == DFNT_FLOAT64) fc[nf++] = cand[i];
+                if (nf) { memcpy(cand, fc, sizeof(int) * (size_t)nf); nc = nf; }
+            }
             {
                 tg_gr_t *g = &s->gr[cand[hk_range(0, nc - 1)]];
                 int32 f = Hopen(path, DFACC_WRITE, 0), gr = GRstart(f), id = GRselect(gr, GRnametoindex(gr, g->name));
-                int32 st[2], ed[2] = {1, 1};
+                int32 st[2] = {0, 0}, ed[2] = {1, 1};
                 uint8 px[64] __attribute__((aligned(8)));
-                st[0] = (int32)hk_range(0, g->dims[0] - 1); st[1] = (int32)hk_range(0, g->dims[1] - 1);
+                long  npx = (long)g->dims[0] * g->dims[1], at = hk_range(0, npx - 1);
+                int   comp = 0;
+                if ((g->nt == DFNT_FLOAT32 || g->nt == DFNT_FLOAT64) && g->il == MFGR_INTERLACE_PIXEL) {
+                    /* pixel interlace: the buffer is [y][x][component]; any component of any pixel */
+                    void *all = calloc((size_t)npx * g->ncomp + 1, 8);
+                    GRreadimage(id, st, NULL, g->dims, all);
+                    at = pick_index(g->nt, all, npx * g->ncomp, 1);
+                    comp = (int)(at % g->ncomp); at /= g->ncomp;
+                    free(all);
+                }
+                else if (g->nt == DFNT_FLOAT32 || g->nt == DFNT_FLOAT64) comp = (int)hk_range(0, g->ncomp - 1);
+                st[0] = (int32)(at % g->dims[0]); st[1] = (int32)(at / g->dims[0]);
                 GRreadimage(id, st, NULL, ed, px);
                 switch (g->nt) {
-                    case DFNT_FLOAT32: *(float32 *)px += 1.0f; break;
-                    case DFNT_FLOAT64: *(float64 *)px += 1.0; break;
+                    case DFNT_FLOAT32: case DFNT_FLOAT64: mut_float(px + comp * tg_ntsize(g->nt), g->nt); break;
                     default: px[0] ^= 1; break;
                 }
                 GRwriteimage(id, st, NULL, ed, px);
                 GRendaccess(id); GRend(gr); Hclose(f);
-                snprintf(desc, cap, "one pixel of image %s (type %d)", g->name, (int)g->nt);
+                snprintf(desc, cap, "one pixel of image %s (type %d, component %d of %d) %s", g->name, (int)g->nt, comp, (int)g->ncomp, mut_how);
                 return "gr-element";
             }
         }
@@ -492,10 +637,34 @@ static const char *mutate(const char *path, tg_spec_t *s, int kind, char *desc, 
                 return "gr-file-attribute";
             }
         }
+        case 12: { /* one value of a dimension scale */
+            int j = 0, found = 0;
+            for (i = 0; i < s->nsds && !found; i++) for (j = 0; j < s->sds[i].rank; j++) if (s->sds[i].dimscale[j]) { found = 1; break; }
+            if (!found) return NULL;
+            i--;
+            {
+                tg_sds_t *d = &s->sds[i];
+                int32 sd = SDstart(path, DFACC_WRITE), id = SDselect(sd, SDnametoindex(sd, d->name)), dim = SDgetdimid(id, j), nt = d->dimscale[j];
+                void *sc = calloc((size_t)d->dims[j] + 1, 8);
+                long  at;
+                int   esz = tg_ntsize(nt);
+                if (SDgetdimscale(dim, sc) == FAIL) hk_fail("generator", "SDgetdimscale (mutation) failed");
+                at = pick_index(nt, sc, d->dims[j], 1);
+                switch (nt) {
+                    case DFNT_FLOAT32: case DFNT_FLOAT64: mut_float((uint8 *)sc + at * esz, nt); break;
+                    default: ((uint8 *)sc)[at * esz] ^= 1; break;
+                }
+                if (SDsetdimscale(dim, d->dims[j], nt, sc) == FAIL) hk_fail("generator", "SDsetdimscale (mutation) failed");
+                free(sc);
+                SDendaccess(id); SDend(sd);
+                snprintf(desc, cap, "value %ld of the scale of dimension %d (%s, type %d) of SDS %s %s", at, j, d->dimname[j], (int)nt, d->name, mut_how);
+                return "sds-dimscale-element";
+            }
+        }
     }
     return NULL;
 }
-#define NMUT 12
+#define NMUT 13
 
 static void oracle_mutations(int k)
 {
@@ -507,17 +676,45 @@ static void oracle_mutations(int k)
     snprintf(f, sizeof f, "%s", hk_tmp("m")); snprintf(f + strlen(f), 32, "_%d.hdf", k);
     snprintf(g, sizeof g, "%s", hk_tmp("n")); snprintf(g + strlen(g), 32, "_%d.hdf", k);
     snprintf(log, sizeof log, "%s", hk_tmp("ml")); snprintf(log + strlen(log), 32, "_%d.txt", k);
-    /* no annotations / palettes: hdiff does not look at them; NaN-free data by construction */
-    tg_random(&spec, TG_F_VG | TG_F_VS | TG_F_GR | TG_F_DIMS | TG_F_LAYOUT);
+    /* no annotations / palettes: hdiff does not look at them.  Floating-point data, scales, fill values, attributes, vdata fields and
+       images hold NaN (several bit patterns), +-Inf, -0.0, denormals, +-FLT_MAX / DBL_MAX among the ordinary values */
+    tg_random(&spec, TG_F_VG | TG_F_VS | TG_F_GR | TG_F_DIMS | TG_F_LAYOUT | TG_F_SPECIAL);
     if (tg_write(f, &spec) != 0) { hk_fail("generator", "tg_write failed"); return; }
+    /* reflexive: bit-identical content is equal content, whatever the values are and whatever tolerance is asked for */
     av[0] = f; av[1] = f;
     rc = run_tool("hdiff", av, 2, log);
     if (rc >= 98 && rc != 255) { crash_oracle(rc, log, "hdiff", "hdiff F F"); goto done; }
     if (rc != 0) hk_fail("hdiff-not-reflexive", "hdiff F F exits %d", rc);
     hk_stat("reflexive", 1);
+    if (hk_chance(50)) {
+        static const char *LIM[] = {"0.125", "0.5", "1", "2.5", "100"};
+        char *bv[4];
+        bv[0] = hk_chance(50) ? "-t" : "-p"; bv[1] = (char *)HK_PICK(LIM); bv[2] = f; bv[3] = f;
+        rc = run_tool("hdiff", bv, 4, log);
+        if (rc >= 98 && rc != 255) { crash_oracle(rc, log, "hdiff", "hdiff -t/-p F F"); goto done; }
+        if (rc != 0) hk_fail("hdiff-not-reflexive", "hdiff %s %s F F exits %d", bv[0], bv[1], rc);
+    }
     tie_match(f, f, log);
+    /* equal content: the same description written a second time (the API returns bit-identical values for both files) */
+    if (hk_chance(35)) {
+        long nd;
+        if (tg_write(g, &spec) != 0) { hk_fail("generator", "tg_write (second copy) failed"); goto done; }
+        tg_report = 0; nd = tg_compare(f, g, TG_CMP_NOAN); tg_report = 1;
+        if (nd != 0) hk_fail("generator", "two files written from one description differ through the API: %s", tg_first);
+        else {
+            int r1, r2;
+            av[0] = f; av[1] = g; r1 = run_tool("hdiff", av, 2, log);
+            if (r1 >= 98 && r1 != 255) { crash_oracle(r1, log, "hdiff", "hdiff F G (equal content)"); goto done; }
+            av[0] = g; av[1] = f; r2 = run_tool("hdiff", av, 2, log);
+            if (r2 >= 98 && r2 != 255) { crash_oracle(r2, log, "hdiff", "hdiff G F (equal content)"); goto done; }
+            if (r1 != 0 || r2 != 0) hk_fail("hdiff-equal-content-differs", "hdiff F G = %d, hdiff G F = %d for two files the API reads bit-identical values from", r1, r2);
+            hk_stat("equal_content", 1);
+        }
+        unlink(g);
+    }
     /* a random kind; when the file has no such object, the next applicable kind */
     kind = (int)hk_range(0, NMUT - 1);
+    if (hk_chance(40)) kind = hk_chance(60) ? 0 : hk_chance(50) ? 4 : 12; /* the data paths (array_diff) carry most of the logic */
     if (copy_file(f, g)) goto done;
     {
         int t;
@@ -532,7 +729,24 @@ static void oracle_mutations(int k)
         if (r1 >= 98 && r1 != 255) { crash_oracle(r1, log, "hdiff", desc); goto done; }
         av[0] = g; av[1] = f; r2 = run_tool("hdiff", av, 2, log);
         if (r2 >= 98 && r2 != 255) { crash_oracle(r2, log, "hdiff", desc); goto done; }
-        if (r1 != 1 || r2 != 1) {
+        /* What must be reported.  Attributes and vdata records are compared as bytes (memcmp): every changed bit pattern.  The
+           elements of an SDS, a dimension scale or an image are compared BY VALUE (usage: "|a-b| > limit", limit 0):
+             - two different values - numbers, +Inf, -Inf - differ;
+             - a NaN and anything that is not a NaN differ (own key: array_diff tests `fabs(a-b) > limit`, false for a NaN);
+             - same value under other bits (0.0 / -0.0: |a-b| = 0; a NaN under another payload or sign: no value at all, the
+               tool prints both as "nan"): no verdict is demanded, but it must be the same in both orders. */
+        if (mut_class == MC_SAMEVALUE) {
+            if (r1 > 1 || r2 > 1) hk_fail("hdiff-status", "hdiff F F' = %d, hdiff F' F = %d after changing %s", r1, r2, desc);
+            else if (r1 != r2) hk_fail("hdiff-asymmetric", "hdiff F F' = %d, hdiff F' F = %d after changing %s", r1, r2, desc);
+            hk_stat(r1 ? "samevalue_change_reported" : "samevalue_change_not_reported", 1);
+        }
+        else if (mut_class == MC_NAN) {
+            if (r1 > 1 || r2 > 1) hk_fail("hdiff-status", "hdiff F F' = %d, hdiff F' F = %d after changing %s", r1, r2, desc);
+            else if (r1 != r2) hk_fail("hdiff-asymmetric", "hdiff F F' = %d, hdiff F' F = %d after changing %s", r1, r2, desc);
+            else if (r1 != 1) hk_fail("hdiff-nan-difference-not-greater-than-limit", "hdiff F F' = %d, hdiff F' F = %d after changing %s", r1, r2, desc);
+            hk_stat("nan_vs_number_change", 1);
+        }
+        else if (r1 != 1 || r2 != 1) {
             char key[80];
             snprintf(key, sizeof key, "hdiff-misses:%s", what);
             hk_fail(key, "hdiff F F' = %d, hdiff F' F = %d after changing %s", r1, r2, desc);
@@ -572,11 +786,11 @@ done:
 static int read_numbers(const char *path, double *out, int cap, int *bad)
 {
     FILE *f = fopen(path, "r");
-    char  tok[128];
+    char  tok[512]; /* DBL_MAX in %f notation has 316 characters */
     int   n = 0;
     *bad = 0;
     if (!f) return -1;
-    while (fscanf(f, "%120s", tok) == 1) {
+    while (fscanf(f, "%500s", tok) == 1) {
         char *end;
         double v = strtod(tok, &end);
         if (*end) { (*bad)++; continue; }
@@ -604,14 +818,22 @@ static double get_val(int32 nt, const void *buf, long i)
 
 static int numeric_nt(int32 nt) { return nt != DFNT_CHAR8 && nt != DFNT_UCHAR8; }
 
+/* does the printed number agree with the value the API returns?  A NaN must be printed as a NaN ("nan" / "-nan"), an infinity as
+   the infinity of the same sign ("inf" / "-inf"); a number within the printed precision (%f: 6 decimals) */
+static int printed_agrees(double got, double e, int flt)
+{
+    if (isnan(e) || isnan(got)) return isnan(e) && isnan(got);
+    if (isinf(e) || isinf(got)) return got == e;
+    return fabs(got - e) <= (flt ? 5e-7 * (1 + fabs(e)) : 0);
+}
+
 static void cmp_numbers(const char *key, const char *what, const double *got, int ngot, int32 nt, const void *buf, long n)
 {
     long i;
     if (ngot != n) { hk_fail(key, "%s: %d values printed, %ld in the object", what, ngot, n); return; }
     for (i = 0; i < n; i++) {
         double e = get_val(nt, buf, i);
-        double tol = (nt == DFNT_FLOAT32 || nt == DFNT_FLOAT64) ? 5e-7 * (1 + fabs(e)) : 0;
-        if (fabs(got[i] - e) > tol) { hk_fail(key, "%s: value %ld printed as %.9g, the API returns %.9g", what, i, got[i], e); return; }
+        if (!printed_agrees(got[i], e, nt == DFNT_FLOAT32 || nt == DFNT_FLOAT64)) { hk_fail(key, "%s: value %ld printed as %.9g, the API returns %.9g", what, i, got[i], e); return; }
     }
 }
 
@@ -624,7 +846,7 @@ static void oracle_dumps(int k)
     int    i, rc, bad, n;
     snprintf(f, sizeof f, "%s", hk_tmp("d")); snprintf(f + strlen(f), 32, "_%d.hdf", k);
     snprintf(log, sizeof log, "%s", hk_tmp("dl")); snprintf(log + strlen(log), 32, "_%d.txt", k);
-    tg_random(&spec, TG_F_VG | TG_F_VS | TG_F_GR | TG_F_LAYOUT | TG_F_UNLIM);
+    tg_random(&spec, TG_F_VG | TG_F_VS | TG_F_GR | TG_F_LAYOUT | TG_F_UNLIM | TG_F_SPECIAL);
     if (tg_write(f, &spec) != 0) { hk_fail("generator", "tg_write failed"); return; }
     /* datasets: by name */
     for (i = 0; i < spec.nsds; i++) {
@@ -744,7 +966,7 @@ static void oracle_dumps(int k)
                             double ex;
                             memcpy(tmp, p, (size_t)sz);
                             ex = get_val(v->ftype[j], tmp, 0);
-                            if (fabs(nums[q] - ex) > 5e-7 * (1 + fabs(ex))) { hk_fail(vkey, "dumpvd %s record %ld field %d[%d]: printed %.9g, VSread returns %.9g", v->name, r, j, e, nums[q], ex); ok = 0; break; }
+                            if (!printed_agrees(nums[q], ex, 1)) { hk_fail(vkey, "dumpvd %s record %ld field %d[%d]: printed %.9g, VSread returns %.9g", v->name, r, j, e, nums[q], ex); ok = 0; break; }
                         }
                     }
             }
@@ -926,6 +1148,7 @@ typedef struct {
     int  lower, style;
     long sc[3][IMP_MAXDIM]; /* scales: planes, rows, columns */
     long v[IMP_MAXEL];
+    int  nspecial;          /* some of the v[] are IMP_SP codes */
     char name[32];
 } imp_in_t;
 
@@ -981,10 +1204,31 @@ static long imp_rnd(int vt, int tame)
     }
 }
 
-static double imp_dbl(int t, long u) { return t <= OT_FP64 ? (double)u / 8.0 : (double)u; }
+/* special floating-point values among the data of an input file (floating-point formats only): codes IMP_SP .. IMP_SP + 7.  All of
+   them are float32 values, so that every path (text -> float32 / float64, FP64 -> float32, HDF) has to give exactly them */
+#define IMP_SP    (LONG_MAX - 16)
+#define IMP_NSP   8
+#define IMP_IS_SP(u) ((u) >= IMP_SP)
+static double imp_special(long u)
+{
+    static const uint32_t B[IMP_NSP] = {0x7fc00000u /* NaN */, 0x7f800000u /* +Inf */, 0xff800000u /* -Inf */, 0x80000000u /* -0.0 */,
+                                        0x7f7fffffu /* FLT_MAX */, 0xff7fffffu, 0x00800000u /* FLT_MIN */, 0x00000001u /* least denormal */};
+    float32 x;
+    memcpy(&x, &B[(u - IMP_SP) % IMP_NSP], 4);
+    return (double)x;
+}
+
+static double imp_dbl(int t, long u) { return IMP_IS_SP(u) ? imp_special(u) : t <= OT_FP64 ? (double)u / 8.0 : (double)u; }
+
+/* the same value: a NaN for a NaN, otherwise the same number with the same sign (-0.0 is not 0.0) */
+static int imp_same(double g, double e) { return (isnan(g) && isnan(e)) || (g == e && !signbit(g) == !signbit(e)); }
 
 static void imp_put_bin(FILE *f, int ct, long u)
 {
+    if (IMP_IS_SP(u)) {
+        if (ct == OT_FP32) { float32 x = (float32)imp_special(u); fwrite(&x, 4, 1, f); } else { float64 x = imp_special(u); fwrite(&x, 8, 1, f); }
+        return;
+    }
     switch (ct) {
         case OT_FP32: { float32 x = (float32)u / 8.0f; fwrite(&x, 4, 1, f); break; }
         case OT_FP64: { float64 x = (float64)u / 8.0; fwrite(&x, 8, 1, f); break; }
@@ -996,7 +1240,8 @@ static void imp_put_bin(FILE *f, int ct, long u)
 
 static void imp_put_txt(FILE *f, int ct, long u, int style)
 {
-    if (ct <= OT_FP64) {
+    if (IMP_IS_SP(u)) fprintf(f, " %.17g", imp_special(u)); /* nan, inf, -inf, -0, 3.4028234663852886e+38, ... */
+    else if (ct <= OT_FP64) {
         if (style == 1 && labs(u) < 64000) fprintf(f, "%14.6E", (double)u / 8.0); /* the layout of the manual's examples */
         else fprintf(f, " %.17g", (double)u / 8.0);
     }
@@ -1028,7 +1273,7 @@ static int imp_write(const char *dir, const imp_in_t *d)
             for (i = 0; i < d->dims[a]; i++) sc[i] = (float32)s[i] / 8.0f;
             if (SDsetdimscale(SDgetdimid(id, a), d->dims[a], DFNT_FLOAT32, sc) == FAIL) ok = 0;
         }
-        for (q = 0; q < d->nel; q++) buf[q] = (float32)d->v[q] / 8.0f;
+        for (q = 0; q < d->nel; q++) buf[q] = IMP_IS_SP(d->v[q]) ? (float32)imp_special(d->v[q]) : (float32)d->v[q] / 8.0f;
         if (SDwritedata(id, st, NULL, (int32 *)d->dims, buf) == FAIL) ok = 0;
         SDendaccess(id);
         if (SDend(sd) == FAIL) ok = 0;
@@ -1052,6 +1297,8 @@ static int imp_write(const char *dir, const imp_in_t *d)
     }
     return 0;
 }
+
+static int imp_allow_special = 1;
 
 /* one input file: format and option (valid together unless `bad` asks for a refusal), shape, range, scales, values */
 static void imp_gen_file(imp_in_t *d, int raster, int bad, int k, int idx)
@@ -1115,6 +1362,14 @@ static void imp_gen_file(imp_in_t *d, int raster, int bad, int k, int idx)
     if (d->fmt == IF_HDF) {
         if (!raster && hk_chance(20)) d->has_range = 0;
         if (raster && !(d->mx > d->mn)) { d->mx = dmax; d->mn = dmin; } /* an HDF input has no computed range */
+    }
+    /* NaN, +-Inf, -0.0, +-FLT_MAX, FLT_MIN, a denormal among the data of a floating-point file (no images of them: a pixel is
+       (unsigned char)(ratio * (v - min) + 1.5)).  The header then carries a range (max > min): hdfimport stores it as it is */
+    if (imp_allow_special && !raster && !bad && d->out >= 0 && d->out <= OT_FP64 && d->nel > 0 && hk_chance(35)) {
+        int cnt = (int)hk_range(1, 3);
+        if (!(d->mx > d->mn)) { d->mx = dmax; d->mn = dmin; if (!(d->mx > d->mn)) d->mx = d->mn + 8; }
+        while (cnt-- > 0) d->v[hk_range(0, d->nel - 1)] = IMP_SP + hk_range(0, IMP_NSP - 1);
+        d->nspecial = 1;
     }
     /* scales: images need strictly increasing ones (indexes() / interp() divide by the differences) */
     d->uniform = raster ? hk_chance(60) : hk_chance(30);
@@ -1261,8 +1516,9 @@ static void imp_check_output(const char *outpath, int rc, const imp_in_t *fs, in
             if (SDreaddata(id, st, NULL, dims, buf) == FAIL) hk_fail("hdfimport-values", "%s: SDreaddata fails", what);
             else for (q = 0; q < d->nel; q++) {
                 double e = imp_dbl(d->out, d->v[q]), g = get_val(nt, buf, q);
-                if (g != e) { hk_fail("hdfimport-values", "%s: element %ld of SDS %s is %.17g, the input file has %.17g", what, q, nm, g, e); break; }
+                if (IMP_IS_SP(d->v[q]) ? !imp_same(g, e) : g != e) { hk_fail("hdfimport-values", "%s: element %ld of SDS %s is %.17g, the input file has %.17g", what, q, nm, g, e); break; }
             }
+            if (d->nspecial) hk_stat("import_run_special_values", 1);
             /* range: the header's when it has max > min, that of the data otherwise; an HDF input's is copied */
             dmax = dmin = d->v[0];
             for (q = 1; q < d->nel; q++) { if (d->v[q] > dmax) dmax = d->v[q]; if (d->v[q] < dmin) dmin = d->v[q]; }
@@ -1363,7 +1619,9 @@ static void oracle_import_run(int k)
        which only exist for FP32 output), and file names longer than the char[32] fields of the option record */
     if (o.raster && !bad && hk_chance(10)) {
         int x = (int)hk_range(0, nf - 1);
+        imp_allow_special = 0;
         do imp_gen_file(&fs[x], 0, 0, k, x); while (fs[x].out == OT_FP32);
+        imp_allow_special = 1;
         nonfloat = 1;
     }
     else if (!bad && hk_chance(8)) {
